@@ -2,16 +2,18 @@
 # tools/selftest.sh [seeded|benign|all] [filter]: the must-fail / must-pass corpus.
 #  seeded/<id>/patch.diff : realistic property-breaking changes; the property's check must print VIOLATION
 #  benign/<id>/patch.diff : behaviour-preserving edits (renames, reorderings, logging); the listed checks must stay green
-# Each patch is applied to /repo with git apply, the checks run, and the patch is reverted straight afterwards.
 MODE=${1:-all}; FILTER=${2:-.}
-cd /repo || exit 2
-if [ -n "$(git status --porcelain)" ]; then echo "selftest: /repo has local changes; refusing to run"; exit 2; fi
+# The patches are applied to a scratch worktree of /repo's HEAD (never to /repo itself), which is removed at the end.
+WT=/var/tmp/govc-selftest-$$
+git -C /repo worktree add -q --detach $WT HEAD || exit 2
+trap 'git -C /repo worktree remove --force $WT 2>/dev/null; rm -rf $WT' EXIT INT TERM
+VERIF=$(cd "$(dirname "$0")/.." && pwd)
 FAIL=0
 run() { # dir expect(VIOLATION|GREEN) props...
   D=$1; EXP=$2; shift 2
-  git -C /repo apply $D/patch.diff || { echo "SELFTEST-ERROR $D: patch does not apply"; FAIL=1; return; }
+  git -C $WT apply $D/patch.diff || { echo "SELFTEST-ERROR $D: patch does not apply"; FAIL=1; return; }
   for P in "$@"; do
-    OUT=$(cd /verif && ./check $P 2>&1); RC=$?
+    OUT=$(cd $VERIF && ./check $P --root $WT 2>&1); RC=$?
     N=$(echo "$OUT" | grep -c '^VIOLATION')
     if [ "$EXP" = VIOLATION ]; then
       if [ $RC -eq 1 ] && [ $N -gt 0 ]; then echo "ok   $(basename $D) $P: caught ($N) $(echo "$OUT" | grep -m1 -o 'obligation=[^ ]*')"; else echo "MISS $(basename $D) $P: rc=$RC"; FAIL=1; fi
@@ -19,22 +21,22 @@ run() { # dir expect(VIOLATION|GREEN) props...
       if [ $RC -eq 0 ] && [ $N -eq 0 ]; then echo "ok   $(basename $D) $P: green"; else echo "FALSE-ALARM $(basename $D) $P: rc=$RC $(echo "$OUT" | grep -m2 '^VIOLATION' | cut -c1-300)"; FAIL=1; fi
     fi
   done
-  git -C /repo apply -R $D/patch.diff
+  git -C $WT apply -R $D/patch.diff
 }
 if [ $MODE = seeded ] || [ $MODE = all ]; then
-  for D in /verif/seeded/*/; do
+  for D in $VERIF/seeded/*/; do
     echo "$D" | grep -q "$FILTER" || continue
     P=$(python3 -c "import json,sys; print(json.load(open('$D/meta.json'))['property'])")
     run $D VIOLATION $P
   done
 fi
 if [ $MODE = benign ] || [ $MODE = all ]; then
-  for D in /verif/benign/*/; do
+  for D in $VERIF/benign/*/; do
     echo "$D" | grep -q "$FILTER" || continue
     PS=$(python3 -c "import json,sys; print(json.load(open('$D/meta.json'))['properties'])")
     run $D GREEN $PS
   done
 fi
-git -C /repo status --short
+git -C $WT status --short
 [ $FAIL -eq 0 ] && echo "selftest: all as expected" || echo "selftest: UNEXPECTED RESULTS"
 exit $FAIL
